@@ -514,9 +514,13 @@ func (w *World) TranslateFunction(fn *ssa.Function, opts VerifyOpts) (vc *FuncVC
 		rangeOfNext: map[*ssa.BasicBlock]*ssa.Range{}}
 	pkgPath := fn.Pkg.Pkg.Path()
 	file := ""
+	vc.homePkg = pkgPath
 	if spec != nil {
 		file = spec.File
 		spec.Used = true
+		for _, r := range spec.Reveal {
+			vc.reveal[r] = true
+		}
 	}
 	t.ctx = w.ctxFor(pkgPath, file)
 	t.run()
@@ -745,7 +749,7 @@ func (t *Translator) join(b *ssa.BasicBlock, ins []edgeIn) *State {
 		parents = append(parents, e.st.pc)
 	}
 	pc := vc.newPC(fmt.Sprintf("b%d", b.Index), parents...)
-	vc.assume(pc, "(or "+strings.Join(parents, " ")+")")
+	vc.joins[pc] = parents
 	out := ins[0].st.clone()
 	out.pc = pc
 	out.pcHasOb = false
